@@ -40,7 +40,11 @@ MANIFEST = dict(
           "and at the end by every constructor form - each with its own reference model: operations on one of them (edits, "
           "requests that fill its memos, an edit that restores the contents) are followed by the probe round on ALL of them, so "
           "an answer that depends on what another registry holds or was asked, or on whether the registry named was ever edited, "
-          "differs from the model of the registry named. Histories are enumerated (discrete), scales and payloads are solved for."),
+          "differs from the model of the registry named. A further family walks registries that are COPIES OF ONE ANOTHER: a twin is born "
+          "from the user registry by copy.copy / copy.deepcopy / deep copy of an array bound to it / Unit.copy(deep=True) / pickle round "
+          "trip / from_json(to_json()) at every position of the history, edits (modify / re-add / remove / add new) follow on either twin, "
+          "and both twins are asked in both orders, each against its own reference model, every unit also having to name the registry "
+          "asked. Histories are enumerated (discrete), scales and payloads are solved for."),
     design="DESIGN.md section 4 C12",
     technique="explicit-state bounded model checking over operation histories, symbolic (z3 real) data, reference-model refinement check per state; counterexample replay on plain unyt")
 EXPLANATION = (
@@ -87,7 +91,15 @@ EXPLANATION = (
     "request and a modify on U, late); at the end the probe round on every world in the order D, L, P, U (+ rows listed, + "
     "cold-registry differential for U), three probe strings + rows on every N, unit_system_id of P and two N forms against a "
     "fresh registry with the same table, then U and P asked again after all the others; each world has its own model with its "
-    "own symbolic scales, so a term of another world in an answer is a violation for all values."
+    "own symbolic scales, so a term of another world in an answer is a violation for all values. "
+    "Family 'twin' (registries that are copies of one another): world A = user registry with xfoo, xbar; after 0..3 operations on A "
+    "a twin B is born by one of 6 routes (copy.copy, copy.deepcopy, copy.deepcopy(quantity bound to A).units.registry, "
+    "Unit(...,registry=A).copy(deep=True).registry, pickle.loads(pickle.dumps(A)), UnitRegistry.from_json(A.to_json())); B must be a "
+    "registry object of its own listing A's rows; B gets its own reference model (A's contents at birth), every later edit of either "
+    "twin carries a fresh solver symbol; at the end 7 probe strings + listed rows on both twins in the order A,B and (separate cases) "
+    "B,A, the twin asked first asked again after the other, every unit's .registry must be the registry asked, units made earlier keep "
+    "their term. A pickle / JSON text cannot hold a solver term: on these two routes the contents at birth are numerals and only "
+    "symbol-free operations precede the birth; edits after the birth are symbolic."
 )
 BOUNDS = {
     "quick": "4 symbols on top of the default table: xfoo (prefixable), xbar present at the start; kxfoo (stand-alone symbol that shadows "
@@ -106,13 +118,14 @@ BOUNDS = {
              "call, the whole battery (13 calls) for the oldest pair whose term or dimension changed, the 9 non-forking calls for the "
              "others; scales/values symbolic except the scales of the cancel family (numerals, payloads symbolic); multi = 12 operations "
              "naming one of 3 registry objects (user, process default, never edited) or creating one, to length 3: 1885, observed at "
-             "the end on all registry objects (3 + those created late + 4 constructor forms)",
+             "the end on all registry objects (3 + those created late + 4 constructor forms); twin = 6 clone routes x 2 orders of asking x birth "
+             "after 0..3 operations on the original (3 operations) x histories over 6 edits naming either twin, total length <= 3: 12 x 478 = 5736",
     "thorough": "the quick families (end, shadow, shadow-every, fresh to length 3; every to length 4: 1555) + deep = the 12 round-1 "
                 "operations to length 4 (22621) + ask-deep = 6 edits + 6 asks + copies to length 4 (30941) + shadow-deep = 10 "
                 "operations (shadow without define_unit / array creation / conversion / old_mix) to length 4 (11111) + mix-deep = 6 "
-                "edits + arr_create + old_mix to length 4 (4681) + cancel to length 3 (2 x 2380) + multi as in quick (1885): 91603 histories",
+                "edits + arr_create + old_mix to length 4 (4681) + cancel to length 3 (2 x 2380) + multi as in quick (1885) + twin with 6 operations before the birth (3 on the pickle / JSON routes) and 14 operations naming either twin after it, total length <= 3 (54816): 146419 histories",
 }
-OUTSIDE = ("histories longer than the bound; more than two user symbols present at the start and two added later; family multi: "
+OUTSIDE = ("histories longer than the bound; more than two user symbols present at the start and two added later; family twin: more than one copy per history, copies of copies, copies of the default registry, unit_system_id / reg[...] asks on the twins, symbolic contents at birth on the pickle / JSON routes; family multi: "
            "arithmetic between quantities of different registry objects (C13), more than one user registry with symbols of its own, "
            "the default registry addressed explicitly, asks other than Unit(string) / rows / unit_system_id on the other registries; prefixes other "
            "than k / m / M in the shadowing and asking operations; stand-alone symbols spelled like a prefixed form that are "
@@ -173,6 +186,20 @@ MULTI = ["D:def_foo", "D:add_foo", "D:rm_foo", "D:mk_pref", "D:mk_comp", "P:touc
          "U:mod_foo_f", "late"]
 NOW_FORMS = ["plain", "unit_system", "lut_only", "lut_plus_defaults"]
 NOW_PROBES = ("atom", "prefixed_k", "compound")
+
+
+# REGISTRIES THAT ARE COPIES OF ONE ANOTHER (family 'twin'): world A = a user registry (xfoo, xbar, symbolic scales); at one position
+# of the history (before any edit, between edits, at the end) a twin B is born from A by one of the CLONE_ROUTES; from then on the two
+# are separate registries: B keeps its own reference model (= A's contents at birth), later edits of either twin carry fresh solver
+# symbols, so a term of the other twin in an answer is a violation for all values. Both twins are asked at the end, in both orders.
+CLONE_ROUTES = ["copy", "deepcopy", "array_deepcopy", "unit_copy_deep", "pickle", "json"]
+SERIAL_ROUTES = ("pickle", "json")
+TWIN_PRE_SERIAL = ["rm_foo", "mk_pref", "mk_comp"]
+TWIN_PRE = ["mod_foo_f", "rm_foo", "mk_pref"]  # before the birth: operations on A
+TWIN_POST = ["A:mod_foo_f", "A:add_foo", "A:rm_foo", "A:add_new", "B:mod_foo_f", "B:rm_foo"]
+TWIN_PRE_FULL = ["mod_foo_f", "add_foo", "rm_foo", "add_new", "mk_pref", "mk_comp"]
+TWIN_POST_FULL = TWIN_POST + ["B:add_foo", "B:add_new", "A:mk_pref", "B:mk_pref", "A:mk_comp", "B:mk_comp", "A:mod_bar_f", "B:mod_bar_f"]
+TWIN_PROBES = ("atom", "prefixed_k", "prefixed_m", "compound", "compound_prefixed", "new_atom", "new_prefixed")
 
 
 def sel(ctx, name, n):  # registry_common.sel (same decoding k <= o < k+1) with a bisection: log2(n) forks per step
@@ -1101,6 +1128,111 @@ class Worlds:
                 self.w[tag].construct(PK[k])
 
 
+class Twins:
+    """a registry and a copy of it, each with its own reference model; one shared history"""
+
+    def __init__(self, ctx, route):
+        self.ctx, self.hist, self.route = ctx, [], route
+        # (a pickle / a JSON text cannot hold a solver term: on these two routes the contents at birth are numerals - 0.5 and 1.25
+        # - and only operations without a solver symbol come before the birth; every edit after the birth is symbolic as elsewhere)
+        self.w = {"A": World(ctx, tag="A", hist=self.hist, scales=CANCEL_CONFIGS["frac"] if route in SERIAL_ROUTES else None)}
+
+    def clone(self, i):
+        import pickle
+        ctx, A, route = self.ctx, self.w["A"], self.route
+        unyt, UR = A.unyt, ctx.mods["UR"]
+        self.hist.append("clone:" + route)
+        if route == "copy":
+            res = call(copy.copy, A.reg)
+        elif route == "deepcopy":
+            res = call(copy.deepcopy, A.reg)
+        elif route == "pickle":
+            res = call(lambda: pickle.loads(pickle.dumps(A.reg)))
+        elif route == "json":
+            res = call(lambda: UR.UnitRegistry.from_json(A.reg.to_json()))
+        else:
+            # through an object bound to A (made from a string: the request is one on A, logged as such)
+            s = FOO if FOO in A.model.t else "m"
+            if route == "array_deepcopy":
+                x = ctx.real(f"x{i}")
+                res = call(lambda: copy.deepcopy(ctx.quantity(x, s, A.reg)).units.registry)
+            else:
+                res = call(lambda: unyt.Unit(s, registry=A.reg).copy(deep=True).registry)
+            if s == FOO:
+                A.log.request(FOO, PK["atom"].text)
+        ok = res[0] == "ok" and res[1] is not A.reg
+        A._req(f"clone:{route}/a-registry-of-its-own", ok, lambda: A.info(got=str(res[1])[:200]))
+        if not ok:
+            return False
+        B = World(ctx, reg=res[1], tag="B", init=(), hist=self.hist)
+        B.model = A.model.copy()
+        B.snaps = [B.user_rows()]
+        self.w["B"] = B
+        # the contents at birth are A's (table view; no string is asked here: the memo layers of both twins stay as they are)
+        B.table_round()
+        return True
+
+    def step(self, i, op):
+        tag, name = op.split(":")
+        w = self.w[tag]
+        w.step(i, name)
+        for t in sorted(self.w):
+            self.w[t].check_old()
+
+    def ask(self, tag):
+        w = self.w[tag]
+        for k in TWIN_PROBES:
+            res = w.construct(PK[k])[0]
+            if res[0] == "ok":
+                w._req(f"twin/unit-names-the-registry-asked/{k}", res[1].registry is w.reg,
+                       lambda: w.info(probe=PK[k].string, other=any(res[1].registry is o.reg for o in self.w.values() if o is not w)))
+        w.table_round()
+
+    def final(self, order):
+        tags = sorted(self.w, reverse=order == "BA")
+        for tag in tags:
+            self.ask(tag)
+        # and the twin asked first is asked again after the other one has been
+        for k in NOW_PROBES:
+            self.w[tags[0]].construct(PK[k])
+        for tag in tags:
+            self.w[tag].check_old()
+
+
+def make_twin_case(route, order, pos, nmax, pre_alpha, post_alpha):
+    """the twin is born after `pos` operations on A (all of pre_alpha ** pos), then every history over post_alpha up to a total
+    length of nmax"""
+    if route in SERIAL_ROUTES:
+        pre_alpha = TWIN_PRE_SERIAL
+
+    def h(ctx):
+        tw = Twins(ctx, route)
+        for i in range(pos):
+            k = sel(ctx, f"pre{i}", len(pre_alpha))
+            tw.step(i, "A:" + pre_alpha[k])
+        if not tw.clone(pos):
+            return
+        for i in range(pos, nmax):
+            k = sel(ctx, f"op{i}", len(post_alpha) + 1)
+            if k == 0:
+                break
+            tw.step(i, post_alpha[k - 1])
+        tw.final(order)
+        mc = tw.w["A"].mc
+        if mc is not None:
+            mc["traces"] += 1
+
+    n_ext = len(pre_alpha) ** pos * sum(len(post_alpha) ** k for k in range(0, nmax - pos + 1))
+    return Case(f"C12/twin/{route}/{order}/born-after-{pos}", h, bounds=f"{len(pre_alpha)}^{pos} histories of A before the birth x all "
+                f"histories over both twins to a total length of {nmax}: {n_ext} histories", budget_s=3000, max_paths=200000, weight=n_ext)
+
+
+def twin_family(nmax, pre_alpha, post_alpha, routes=CLONE_ROUTES):
+    return [make_twin_case(r, o, p, nmax, pre_alpha, post_alpha) for r in routes for o in ("AB", "BA") for p in range(nmax + 1)]
+
+
+
+
 def make_multi_case(prefix, nmax, alphabet):
     def h(ctx):
         ws = Worlds(ctx)
@@ -1198,7 +1330,7 @@ def cases(tier, mods):
                 + family("shadow", SHADOW, 3, 2, every=False, probe_set=allp)
                 + family("shadow-every", SHADOW_EVERY, 3, 1, every=True, probe_set=allp)
                 + family("fresh", FRESH, 3, 2, every=False, probe_set=allp)
-                + cancel_family(2, 1) + multi_family(MULTI, 3, 2))
+                + cancel_family(2, 1) + multi_family(MULTI, 3, 2) + twin_family(3, TWIN_PRE, TWIN_POST))
     # thorough: the round-1 alphabet one step deeper; the widened alphabet to length 3; reduced alphabets around the new
     # regions (asks / copies, shadowing symbol) to length 4
     return (family("deep", OPS, 4, 2, every=False) + family("every", EDITS, 4, 1, every=True)
@@ -1209,7 +1341,7 @@ def cases(tier, mods):
             + family("shadow-deep", [o for o in SHADOW if o not in ("def_kfoo", "convert", "arr_create", "old_mix")], 4, 2, every=False, probe_set=allp)
             + family("shadow-every", SHADOW_EVERY, 3, 1, every=True, probe_set=allp)
             + family("fresh", FRESH, 3, 2, every=False, probe_set=allp)
-            + cancel_family(3, 1) + multi_family(MULTI, 3, 2))
+            + cancel_family(3, 1) + multi_family(MULTI, 3, 2) + twin_family(3, TWIN_PRE_FULL, TWIN_POST_FULL))
 
 
 CONFORM = {"quick": 20, "thorough": 60}
